@@ -5,4 +5,5 @@ CONSTANTS
 SPECIFICATION Spec
 INVARIANT EmitDec
 INVARIANT EmitEnc
+INVARIANT EmitProbe
 CHECK_DEADLOCK FALSE
